@@ -2,19 +2,26 @@ package main
 
 import (
 	"fmt"
-	"os"
+	"strings"
 
+	kvql "github.com/c4pt0r/kvql"
 	"kvqlverif/drive"
 	"kvqlverif/refstore"
 )
 
 func main() {
-	ps := []refstore.Pair{{K: "a", V: "1"}, {K: "m", V: "2"}, {K: "n", V: "3"}, {K: "z", V: "4"}}
-	for _, q := range os.Args[1:] {
-		for _, b := range []bool{false, true} {
-			st := refstore.New(ps)
-			o := drive.Run(q, st, drive.Mode{Batch: b, Size: 3, Cache: true})
-			fmt.Printf("%s batch=%v status=%s rows=%v explain=%v err=%v\n", q, b, o.Status(), o.Rows, o.Explain, o.Err())
+	ps := []refstore.Pair{{K: "a", V: "1"}}
+	for _, q := range []string{"\n  select * where key = 1", "\t select * where key = 1", "\r\n select * where val = 1", " \t  where key ^= ", "\n\twhere key = 'a' & value + 1"} {
+		st := refstore.New(ps)
+		o := drive.Run(q, st, drive.Mode{Size: 3, Cache: true})
+		err := o.Err()
+		pos, kind, _ := drive.ErrPos(err)
+		texts, pan, _ := drive.Render(err, q, []int{0})
+		fmt.Printf("%q status=%s pos=%d kind=%s pan=%q\n%s\n", q, o.Status(), pos, kind, pan, strings.Join(texts, "\n"))
+		l := kvql.NewLexer(q)
+		for _, t := range l.Split() {
+			fmt.Printf("  tok %q@%d", t.Data, t.Pos)
 		}
+		fmt.Println()
 	}
 }
